@@ -285,7 +285,7 @@ def main(pid, tier, seed):
     mc = mc_stage()
     traces, meta = [], {}
     tid = 0
-    n_lists = 10 if tier == 'quick' else 500
+    n_lists = 10 if tier == 'quick' else (2500 if pid == 'C06' else 500)
     n_train = 0
     n_alpha_retry = 0
     from . import lists as _lists
